@@ -122,6 +122,22 @@ CLAIMS = {
             "judged for space-indented LF text and lines shorter than the 512-byte window, captures without blank or "
             "under-indented continuation lines (the property's own restriction)",
             "DESIGN.md section 3 C07"),
+    "C10": ("model_checking",
+            "TLA+ model of do_edit (DocEdit.tla: accept_edit, tree.edit, reparse over texts with multi-byte characters) "
+            "model-checked by TLC; edit histories replayed through AstGrep::edit and judged by TLC against a fresh parse, "
+            "hook trace validated against the model",
+            "DocEdit.tla keeps the text, the old tree's token ranges, the pending InputEdit and how often it was applied; "
+            "TLC checks for every text up to the bound and every edit that the old tree handed to the parser is consistent "
+            "with the new text, that the InputEdit's points are the (row, byte column) of its offsets and that it is "
+            "applied exactly once (the configuration MC_C10_prefix shows the pre-fix double application breaks this). "
+            "The abstract edit shapes reached by the model drive concrete histories (whole-line insert/delete, token "
+            "renames with multi-byte text, random boundary edits) on carrier programs and corpus files of all 23 "
+            "languages through AstGrep::edit; Trace_C10 requires text = spliced text and, for results that parse without "
+            "errors, DFS dump = dump of a fresh parse; the accept_edit/tree_edit/reparse hook events are checked against "
+            "DocEdit (drift).",
+            "tree-sitter's incremental parser is trusted to equal a fresh parse when given a consistent old tree; "
+            "histories of length 2-3",
+            "DESIGN.md section 3 C10"),
 }
 
 NOT_YET = "check not built yet in this round (construction order in DESIGN.md section 9); not claimed until it runs"
